@@ -596,36 +596,58 @@ def real_tree(run: Run, sc: Path, procs, pool) -> None:
                 else:
                     pk.append(j)
             toc.append({"d": i, "pk": pk, "lw": lw, "unknown": unknown})
-    trace.update({"tree": nodes, "rootk": rootk, "produced": produced, "stray": len(stray), "toc": toc})
+    events = trace["events"]
+    # one event list per module (begin .. end); anything recorded between modules forms a list of its own
+    mods, curmod = [], None
+    for e in events:
+        if e["ev"] == "begin":
+            curmod = {"path": e["path"], "ev": [e]}
+            mods.append(curmod)
+        elif e["ev"] == "finish":
+            mods.append({"path": "(after the last module)", "ev": [e]})
+            curmod = None
+        elif curmod is None:
+            mods.append({"path": "(between modules)", "ev": [e]})
+        else:
+            curmod["ev"].append(e)
+            if e["ev"] == "end":
+                curmod = None
+    if not any(m["ev"][0]["ev"] == "finish" for m in mods):
+        mods.append({"path": "(after the last module)", "ev": []})
+    tdata = {"mods": mods, "tree": nodes, "rootk": rootk, "produced": produced, "stray": len(stray), "toc": toc}
     tf = sc / "docgen_trace.json"
-    tf.write_text(json.dumps(trace))
+    tf.write_text(json.dumps(tdata))
     cfg = write_cfg(sc / "trace.cfg", init="TInit", next_="TNext",
                     constants=dict(NOP, MaxNodes="<- TMaxNodes"),
                     invariants=["Accepted", "Stuck", "Unfinished", "FlagDefaultBetweenModules", "TreeReport"])
     res = run_tlc("DocGenTrace", cfg, sc, workers=1, env={"TRACE_FILE": str(tf)}, allow_violation=False)
-    run.add_tlc(res, f"trace validation of the real generator run: {len(trace['events'])} events, tree of {len(nodes)} nodes")
-    events = trace["events"]
-    modules = sum(1 for e in events if e["ev"] == "begin")
-    run.traces += modules
+    run.add_tlc(res, f"trace validation of the real generator run: {len(mods)} module traces, {len(events)} events, "
+                     f"tree of {len(nodes)} nodes")
+    run.traces += len(mods)
     run.coverage["real_tree"] = {
-        "events": len(events), "modules": modules,
+        "events": len(events), "modules": len(mods),
         "flag_changes": sum(1 for e in events if e["ev"] == "flag"),
         "statement_probes": sum(1 for e in events if e["ev"] == "stmt"),
         "pages": len(produced), "tree_nodes": len(nodes)}
-    accepted = any(l.startswith('<<"ACCEPT"') for l in res.raw_prints)
+    verdict = {}
     for line in res.raw_prints:
-        if line.startswith('<<"STUCK"'):
-            m = re.match(r'<<"STUCK", (\d+), "(.*)">>', line)
-            at = int(m.group(1))
-            ev = events[at - 1] if at <= len(events) else {"ev": "(end of trace)"}
-            ctx = next((e for e in reversed(events[:at]) if e["ev"] == "begin"), {})
-            run.violation(f"real: trace {ctx.get('path', '?')} {ev.get('ev')}",
-                          f"event {at} {json.dumps({k: v for k, v in ev.items() if k != 'shape'})} in module "
-                          f"{ctx.get('path', '?')} is not a step DocGenTrace allows "
-                          f"(statement kind: {ctx.get('shape', ['?'] * 200)[ev['i'] - 1] if ev.get('ev') == 'stmt' else '-'})",
-                          {"layer": "real", "event": ev, "module": ctx})
-    if not accepted and not any(l.startswith('<<"STUCK"') for l in res.raw_prints):
-        raise RuntimeError("DocGenTrace gave no verdict:\n" + res.output[-2000:])
+        m = re.match(r'<<"(ACCEPT|STUCK)", (\d+)(?:, (\d+))?>>', line)
+        if m:
+            verdict.setdefault(int(m.group(2)), (m.group(1), int(m.group(3) or 0)))
+    if sorted(verdict) != list(range(1, len(mods) + 1)):
+        raise RuntimeError(f"DocGenTrace gave {len(verdict)} verdicts for {len(mods)} module traces:\n" + res.output[-2000:])
+    for n, mrec in enumerate(mods, start=1):
+        v, at = verdict[n]
+        if v == "ACCEPT":
+            continue
+        evs = mrec["ev"]
+        ev = evs[at - 1] if at <= len(evs) else {"ev": "(trace ends before the module is closed)"}
+        shape = evs[0].get("shape", []) if evs else []
+        kind = shape[ev["i"] - 1] if ev.get("ev") == "stmt" and 0 < ev["i"] <= len(shape) else "-"
+        run.violation(f"real: trace {mrec['path']} {ev.get('ev')}",
+                      f"{mrec['path']}: event {at} {json.dumps({k: w for k, w in ev.items() if k not in ('shape', 'path')})} "
+                      f"is not a step DocGenTrace allows (statement kind {kind}; evaluation flag protocol / expected mode / page)",
+                      {"layer": "real", "event": ev, "module": mrec["path"], "shape": shape})
     rep = next((r for r in res.printed if isinstance(r, dict) and r.get("kind") == "tree"), None)
     if rep is None:
         raise RuntimeError("DocGenTrace printed no tree report")
@@ -663,9 +685,7 @@ def real_tree(run: Run, sc: Path, procs, pool) -> None:
                           {"layer": "real", "page": stem, "module": str(p)})
     run.coverage["real_tree"].update({"symbol_rows_compared": rows, "formulas_compared": formulas})
     check_roles(run, raw, results[0][3] / "final")
-    sample_ev = [e for e in events if e["ev"] != "begin"][:0]
     run.sample({"layer": "real", "first_events": [({k: v for k, v in e.items() if k != "shape"}) for e in events[2:9]]}, limit=8)
-    del sample_ev
 
 
 # --------------------------------------------------------------------------------------------------
@@ -699,6 +719,7 @@ def main() -> int:
         "statement-by-statement execution); comparison by value is the C17 extension point formula_matches()",
         "Sphinx HTML building is not run; `:attr:` / py-domain references other than the two custom roles are not resolved",
     ]
+    run.violations.sort(key=lambda v: not v["key"].startswith("real"))     # findings on the real tree first
     return run.finish(exhaustive=True)
 
 
